@@ -273,11 +273,28 @@ def job_whole(stack, nondim, solve_for=('tidal', 'loading'), malformed=None):
         def f(*a):
             rec[kind] += 1
         return f
+    # the radial-function re-dimensionalisation is bound through the kernel's OWN signature (names and defaults read from nondimensional.pyx): a dropped optional argument silently
+    # takes its default
+    import re as _re
+    nd_src = open(os.path.join(REPO, 'TidalPy/utilities/dimensions/nondimensional.pyx')).read()
+    hdr_ = pyx2py.find_function(nd_src, 'cf_redimensionalize_radial_functions')[0]
+    sig_rf = []
+    for a_ in pyx2py._split_args(_re.match(r'^\s*(?:cdef|cpdef|def)\s+.*?\((.*)\)', ' '.join(hdr_.split())).group(1)):
+        nm_, _, df_ = a_.partition('=')
+        sig_rf.append((nm_.replace('*', ' ').split()[-1], df_.strip() or None))
+
+    def redim_rf_stub(*a, **k):
+        rec['redim_rf'] += 1
+        bound = {nm_: (int(df_) if df_ is not None else None) for nm_, df_ in sig_rf}
+        for (nm_, _), v_ in zip(sig_rf, a):
+            bound[nm_] = v_
+        bound.update(k)
+        rec['redim_rf_args'] = [bound[nm_] for nm_, _ in sig_rf]
     G = Q.sym('G')
     ns = {'G': G, 'MAX_NUM_Y': 6, 'MAX_NUM_Y_REAL': 12, 'NAN': rNAN, 'cmplx_NAN': cNAN, 'PyMem_Free': PyMem_Free, 'allocate_mem': allocate_mem, 'RadialSolverSolution': Sol,
           'cf_apply_surface_bc': st_surface, 'cf_build_dblcmplx': lambda a, b: Q.of(a) + Q(0, 1) * Q.of(b), 'cf_build_solver': build_solver,
           'cf_collapse_layer_solution': real_col['cf_collapse_layer_solution'], 'cf_find_num_solutions': lambda t, st, inc: c02.nsol(t, st), 'cf_find_starting_conditions': find_start,
-          'cf_non_dimensionalize_physicals': nd_stub('nondim'), 'cf_redimensionalize_physicals': nd_stub('redim'), 'cf_redimensionalize_radial_functions': nd_stub('redim_rf'),
+          'cf_non_dimensionalize_physicals': nd_stub('nondim'), 'cf_redimensionalize_physicals': nd_stub('redim'), 'cf_redimensionalize_radial_functions': redim_rf_stub,
           'cf_solve_upper_y_at_interface': iface, 'cf_top_to_bottom_interface_bc': st_rev, 'find_love_cf': lambda out, surf, gs: rec['love'].append([surf[i] for i in range(6)]),
           'isnan': lambda v: False, 'isinf': lambda v: False}
     ns.update(pyx2py.RUNTIME)
@@ -335,6 +352,14 @@ def job_whole(stack, nondim, solve_for=('tidal', 'loading'), malformed=None):
     ob('succeeds, every allocation is released exactly once, scaling and restoring are paired', [z3.BoolVal(sol is rec.get('solution') and sol.success is True),
         z3.BoolVal(all(sum(1 for fr in rec['freed'] if fr is a) == 1 for a in rec['alloc'])), z3.BoolVal(rec['nondim'] == (1 if nondim else 0) and rec['redim'] == (1 if nondim else 0)),
         z3.BoolVal(rec['redim_rf'] == (1 if nondim else 0))], 'protocol')
+    if nondim:
+        ra = rec.get('redim_rf_args') or [None] * 5
+        base_ = ra[0].base if isinstance(ra[0], Ptr) else ra[0]
+        ob('the radial functions are re-dimensionalised with the solution buffer, the planet radius and bulk density the arrays were scaled with, the slice count and the number of requested '
+           'solution types (arguments bound through the kernel\'s own signature and defaults)',
+           [z3.BoolVal(sol is not None and base_ is sol.full_solution_ptr and (not isinstance(ra[0], Ptr) or ra[0].off == 0)), same(ra[1], radius.data[total - 1]) if ra[1] is not None else z3.BoolVal(False),
+            same(ra[2], Q.sym('rho_bulk')) if ra[2] is not None else z3.BoolVal(False), z3.BoolVal(ra[3] is not None and int(Q.of(ra[3]).const()) == total),
+            z3.BoolVal(ra[4] is not None and int(Q.of(ra[4]).const()) == len(solve_for))], 'redim-rf-args')
     if len(rec['solver']) == L and len(rec['iface']) == L - 1 and len(rec['start']) == 1:
         # storage written by the integration phase = main_storage[layer][solution] (allocation order: main, then per layer: by-solution, then one per solution)
         by_y = [a_ for a_ in rec['alloc'] if a_.name == 'storage_by_y_ptr']
